@@ -242,6 +242,30 @@ for _c in CHECKS:
     if _c["id"] in EXTRA4:
         _c["text"] = _c["text"] + " " + EXTRA4[_c["id"]]
 
+# families added after the eighth wave (DESIGN 10.19)
+EXTRA5 = {
+    "C01": "A 20-token document alphabet with the characters %-formats, templates and regular expressions give meaning to.",
+    "C02": "Free text and comments with letters whose case mappings change length.",
+    "C03": "The same 20-token alphabet.",
+    "C04": "Repeated field keys and entry keys holding %-formats; an entry without a type as suffix.",
+    "C05": "'auto' as an equal string built at run time; values ending in a backslash and a line break.",
+    "C06": "'auto' built at run time; values ending in the writer's own punctuation; an entry holding a key twice.",
+    "C08": "Key maps: the same closure steps with keys holding format / template / regex characters.",
+    "C09": "Entry, string and field keys holding %-formats; the empty field key repeated.",
+    "C11": "String names that are not identifiers (a.b, x+y) match literally; an entry keyed like a string.",
+    "C13": "Invalid names holding a %.",
+    "C14": "The stacks handed over as tuples and one-shot iterators.",
+    "C15": "Strings int() / float() would still accept (+3, 1_2, full-width digits) and negative ints.",
+    "C16": "Keys holding %-formats and regex characters.",
+    "C17": "Orders and field keys with regex metacharacters (author+an, a.b).",
+    "C18": "Converters failing with exceptions whose arguments are not text or empty, on values holding format characters.",
+    "C19": "Keys holding format characters; an empty entry type and key.",
+    "C20": "One list object refilled for every block.",
+}
+for _c in CHECKS:
+    if _c["id"] in EXTRA5:
+        _c["text"] = _c["text"] + " " + EXTRA5[_c["id"]]
+
 CHECKS.sort(key=lambda c: c["id"])
 
 _claimed = {c["id"] for c in CHECKS}
